@@ -19,6 +19,12 @@ domain is executed on the real formatter obtained from the registry:
                parses to t. With stages 1-2 this makes the parsed device config a fixed point of join/parse.
                Evaluated independently of stages 1-3, so the split side stays covered where join is broken.
 
+Part H (history): the stages above are repeated for every ORDERED PAIR of vendors (v1, v2) in a process that has used
+no formatter before (a fresh interpreter that imported annet, forked once per pair): v1's formatter parses and joins
+all its forests <= 2 nodes, then v2 runs stages 1-4 on all its forests <= 3 nodes. Formatter classes share base classes
+(Junos/Ribbon/Nokia, the block-exit family), so state kept on a class or module by the first vendor used in a process
+would otherwise stay invisible: within one block of the main part only one vendor is ever used.
+
 Per case at most two failures are reported: stage 4, and the first failing one of stages 1-3.
 
 Well-formed domains. A forest is excluded only by one of these syntactic rules, fixed before anything was run
@@ -66,6 +72,8 @@ ASSUMPTIONS = [
     "device-style texts come from an independent printer that uses only decorations shown in the project's own "
     "fixtures (tests/annet/test_formatter.py, tests/annet/test_patch/cisco_bgp_address_family.yaml)",
     "rows come from a fixed alphabet per vendor; rows outside it (other punctuation, unicode) are not covered",
+    "part H: 'a process that has used no formatter' is a fresh interpreter that ran mc.env.setup() and imported annet.gen; "
+    "histories are one vendor deep (ordered pairs)",
     "one formatter object per block is reused across cases (formatters keep no per-call state); replay builds fresh ones",
     "gen.format_config_blocks itself is called for forests of <= 4 nodes and must print the same text as "
     "registry.match(hw).make_formatter(indent='  ').join (its body); larger forests use that formatter directly, "
@@ -122,8 +130,12 @@ def rows_for(vendor, which):
     return list(vt.ALPHABET[fam] if which == "full" else REDUCED[fam])
 
 
+H_FIRST_N = 2
+H_SECOND_N = {"quick": 3, "thorough": 4}
+
+
 def blocks(tier, seed):
-    out = []
+    out = [{"part": "H", "first": v, "n2": H_SECOND_N[tier]} for v in vt.VENDORS]
     only = os.environ.get("VERIF_C04_VENDORS")          # debugging aid only; never set by bin/check or MANIFEST
     for v in vt.VENDORS:
         if only and v not in only.split(","):
@@ -284,7 +296,95 @@ def _crosscheck_pruning(fam, rows, ctx):
                           {"family": fam, "n": n}, "filtered=%d pruned=%d" % (len(a), len(b)))
 
 
+def _forests_upto(vendor, n):
+    fam = vt.FAMILY[vendor]
+    rows = rows_for(vendor, "full")
+    node_ok = vt.NODE_OK.get(fam)
+    for k in range(0, n + 1):
+        for f in ([[]] if k == 0 else menum.forests_n(rows, k, MAX_DEPTH, node_ok=node_ok)):
+            if vt.in_domain(fam, f):
+                yield f
+
+
+def hist_pair(v1, v2, n2, only_forest=None):
+    """runs in a process forked from a cold interpreter: v1 first, then v2 judged -> {"cases","nontrivial","evals","fails"}"""
+    fx1 = Fixture(v1)
+    for f in _forests_upto(v1, H_FIRST_N):
+        try:
+            check_case(fx1, f)
+        except Exception:  # noqa  (v1 is only history here; its own failures are reported where v1 is second)
+            pass
+    fx2 = Fixture(v2)
+    out = {"cases": 0, "nontrivial": 0, "evals": 0, "fails": []}
+    for f in ([only_forest] if only_forest is not None else _forests_upto(v2, n2)):
+        evals, fails, _ = check_case(fx2, f)
+        out["cases"] += 1
+        out["evals"] += evals
+        out["nontrivial"] += int(vt.depth(f) >= 2)
+        for kind, detail in fails:
+            if len(out["fails"]) < 40:
+                out["fails"].append([kind, f, detail[:600]])
+    return out
+
+
+def hist_main(argv):
+    """body of the cold interpreter: `python -m checks.c04_roundtrip --hist v1 n2 [v2 forest-json]`; forks once per v2"""
+    import json
+    import sys
+    v1, n2 = argv[0], int(argv[1])
+    setup()
+    seconds = [argv[2]] if len(argv) > 2 else [v for v in vt.VENDORS if v != v1]
+    only_forest = json.loads(argv[3]) if len(argv) > 3 else None
+    res = {}
+    for v2 in seconds:
+        r, w = os.pipe()
+        pid = os.fork()
+        if pid == 0:
+            os.close(r)
+            try:
+                data = hist_pair(v1, v2, n2, only_forest)
+            except BaseException as e:  # noqa
+                data = {"cases": 0, "nontrivial": 0, "evals": 0, "fails": [["harness-exception", [], repr(e) + traceback.format_exc()[-800:]]]}
+            with os.fdopen(w, "w") as fh:
+                fh.write(json.dumps(data))
+            os._exit(0)
+        os.close(w)
+        with os.fdopen(r) as fh:
+            txt = fh.read()
+        os.waitpid(pid, 0)
+        res[v2] = json.loads(txt) if txt else {"cases": 0, "nontrivial": 0, "evals": 0, "fails": [["harness-exception", [], "child died"]]}
+    sys.stdout.write("C04HIST " + json.dumps(res) + "\n")
+
+
+def _run_cold(args):
+    import json
+    import subprocess
+    import sys
+    r = subprocess.run([sys.executable, "-m", "checks.c04_roundtrip", "--hist"] + [str(a) for a in args],
+                       capture_output=True, text=True, timeout=1200)
+    for ln in r.stdout.splitlines():
+        if ln.startswith("C04HIST "):
+            return json.loads(ln[8:])
+    raise RuntimeError("cold interpreter failed: rc=%s %s" % (r.returncode, (r.stderr or r.stdout)[-1500:]))
+
+
+def run_hist(block, ctx):
+    v1 = block["first"]
+    res = _run_cold([v1, block["n2"]])
+    for v2, d in res.items():
+        ctx.states += d["cases"]
+        ctx.evals += d["evals"]
+        ctx.nontrivial += d["nontrivial"]
+        ctx.extra["history_pairs"] += 1
+        ctx.outcomes["H:%s-after-other/%s" % (vt.FAMILY[v2], "ok" if not d["fails"] else "fails")] += 1
+        for kind, forest, detail in d["fails"]:
+            sig = dict(signature(v2, kind, forest), after=vt.FAMILY[v1], part="H")
+            ctx.violation(sig, {"part": "H", "first": v1, "vendor": v2, "forest": forest, "n2": block["n2"]}, detail)
+
+
 def run_block(block, ctx):
+    if block.get("part") == "H":
+        return run_hist(block, ctx)
     vendor = block["vendor"]
     fx = Fixture(vendor)
     fam = fx.family
@@ -346,9 +446,20 @@ def finish(merged, tier):
 
 
 def replay(case):
+    if case.get("part") == "H":
+        res = _run_cold([case["first"], case["n2"], case["vendor"], __import__("json").dumps(case["forest"])])
+        d = res[case["vendor"]]
+        return [(dict(signature(case["vendor"], kind, forest), after=vt.FAMILY[case["first"]], part="H"), detail)
+                for kind, forest, detail in d["fails"]]
     fx = Fixture(case["vendor"])
     forest = case["forest"]
     if not vt.in_domain(fx.family, forest):
         return [({"kind": "replay-case-outside-domain", "vendor": case["vendor"]}, "forest is not in the vendor's domain")]
     _, fails, _ = check_case(fx, forest)
     return [(signature(case["vendor"], kind, forest), detail) for kind, detail in fails]
+
+
+if __name__ == "__main__":
+    import sys as _sys
+    if len(_sys.argv) > 2 and _sys.argv[1] == "--hist":
+        hist_main(_sys.argv[2:])
